@@ -51,6 +51,9 @@ CLAIMED = {
  'C11': dict(
     text='Bounded symbolic model checking of the compiled code: for each selected pair of same-dimension standard-library units (with prefixes) the real VM comparison opcodes and Quantity::eq are executed symbolically with both magnitudes ranging over all 2^64 double bit patterns; every feasible path is explored and each of the property\'s clauses (== symmetric, < mirrors >, <= mirrors >=, != negates ==, trichotomy for non-NaN, NaN makes orderings false) is discharged by the solver or refuted with a model that is replayed against the native build. All-values-within-a-pair is the right level because the defect class is a rounding coincidence between two conversion directions that sampling does not hit.',
     design_ref='DESIGN.md §4 C11', technique='symbolic execution of LLVM IR + SMT (z3 QF_FPBV), native replay'),
+ 'C23': dict(
+    text='Partial claim (temperature scales), bounded symbolic model checking through the whole real pipeline: the real module physics::temperature_conversion is imported into a real session; for a symbolic double x with |x| <= 10^6 the programs celsius(from_celsius(x)) and from_celsius(celsius(x kelvin)) (thorough tier: the Fahrenheit pair as well) are interpreted, and the solver proves the round trip restores x within 1e-9 (1e-8) on every feasible path. This is a floating-point tolerance claim that is decidable because the Celsius pair only adds and subtracts a constant.',
+    design_ref='DESIGN.md §0a / §4 C23', technique='symbolic execution of LLVM IR (whole interpreter pipeline) + SMT (z3 QF_FP), native replay'),
 }
 
 NOT_APPLICABLE = {
@@ -62,7 +65,6 @@ NOT_APPLICABLE = {
  'C17': 'finite set of module orders with no symbolic value; exhaustive enumeration is the tool',
  'C19': 'date-time arithmetic lives in jiff (calendar and time-zone tables) behind VM opcodes that need a DateTime on the stack; no kernel was built, so nothing is claimed',
  'C22': 'process-level I/O and exit status of the CLI binary; behind I/O and whole-program execution',
- 'C23': 'the inverse pairs are libm functions (symbolic arguments not executable), jiff date arithmetic, or tolerance claims over floating-point products; the add/sub-only temperature kernel was not built',
  'C24': 'finite list of concrete snippets; executing them is a test, not a solver query',
 }
 
